@@ -125,7 +125,10 @@ func (h *Heap[T]) Pop() T {
 // Delete removes an element from the heap. It returns false in case the element does not exists.
 // After removal, it reorders the heap structure based on the heap-specific rules.
 func (h *Heap[T]) Delete(val T) (bool, error) {
-	len := h.Size()
+	h.mu.Lock()
+	defer h.mu.Unlock()
+
+	len := h.size()
 	if len == 0 {
 		return false, fmt.Errorf("heap empty")
 	}
@@ -135,12 +138,10 @@ func (h *Heap[T]) Delete(val T) (bool, error) {
 		return false, fmt.Errorf("value not found in the heap: %v", val)
 	}
 
-	h.mu.Lock()
 	swap(h.data, idx, len-1)
 	h.data = h.data[:len-1]
 
 	h.moveDown(len-1, 0)
-	h.mu.Unlock()
 
 	return true, nil
 }
@@ -281,14 +282,11 @@ func swap[T any](data []T, i, j int) {
 }
 
 func (h *Heap[T]) getIndex(slice []T, val T) (int, bool) {
-	h.mu.RLock()
 	for i := 0; i < len(slice); i++ {
 		if slice[i] == val {
-			h.mu.RUnlock()
 			return i, true
 		}
 	}
-	h.mu.RUnlock()
 
 	return -1, false
 }
